@@ -31,6 +31,10 @@ type c18Scenario struct {
 	timers  int
 	bound   int
 	planner string
+	// slow: the client's receive buffer holds 16 bytes and the client reads nothing for 6.5 s after the
+	// subscription is established (a data frame is stuck half-way while the 4 s heartbeat comes due), then
+	// reads on and terminates at 10 s
+	slow bool
 }
 
 func (sc c18Scenario) name() string {
@@ -46,7 +50,11 @@ func (sc c18Scenario) name() string {
 		}
 		us = append(us, "["+strings.Join(x, ",")+"]")
 	}
-	return fmt.Sprintf("%s client=[%s] upstream=%s heartbeats<=%d PB<=%d planner=%s", sc.sub, strings.Join(cs, ","), strings.Join(us, ""), sc.timers, sc.bound, sc.planner)
+	slow := ""
+	if sc.slow {
+		slow = " slow-reader"
+	}
+	return fmt.Sprintf("%s client=[%s]%s upstream=%s heartbeats<=%d PB<=%d planner=%s", sc.sub, strings.Join(cs, ","), slow, strings.Join(us, ""), sc.timers, sc.bound, sc.planner)
 }
 
 func (sc c18Scenario) atoms() []string {
@@ -61,6 +69,9 @@ func (sc c18Scenario) atoms() []string {
 	}
 	if sc.timers > 0 {
 		set["heartbeat"] = true
+	}
+	if sc.slow {
+		set["slow-reader"] = true
 	}
 	if sc.sub == c18SubCross {
 		set["child-steps"] = true
@@ -106,6 +117,9 @@ func c18Harness(h *gwHarness, sc c18Scenario) explore.Harness {
 			writeClientFrame(cli, clientMsg("start", "1", map[string]interface{}{"query": sc.sub}))
 			vrt.Recv(env.startedC)
 			o.established = 1
+			if sc.slow {
+				slowReader(cli)
+			}
 			vrt.Explore(true)
 			for _, u := range env.ups {
 				vrt.Send(u.goC, 1)
@@ -146,6 +160,9 @@ func c18Harness(h *gwHarness, sc c18Scenario) explore.Harness {
 				}
 				if !ended {
 					// every script ends the connection, otherwise nothing is torn down
+					if sc.slow {
+						vrt.Sleep(10 * time.Second)
+					}
 					writeClientFrame(cli, clientMsg("connection_terminate", "", nil))
 				}
 			})
@@ -157,6 +174,22 @@ func c18Harness(h *gwHarness, sc c18Scenario) explore.Harness {
 		}
 		return run, check
 	}
+}
+
+// slowReader turns the client end into a slow reader: what has arrived so far is consumed, from now on
+// 16 unread bytes fill the receive buffer, and the client reads again (to the end) after 6.5 s.
+func slowReader(cli *vrt.Conn) {
+	buf := make([]byte, 1<<16)
+	cli.Read(buf)
+	cli.RecvBuf = 16
+	vrt.GoDaemon("client-reader", func() {
+		vrt.Sleep(6500 * time.Millisecond)
+		for {
+			if _, err := cli.Read(buf); err != nil {
+				return
+			}
+		}
+	})
 }
 
 func c18Verdict(s *vrt.Sched, o *c18Obs) string {
@@ -254,6 +287,15 @@ func c18Scenarios(tier string) []c18Scenario {
 				out = append(out, c18Scenario{world: "W0+subscription-roots", sub: c18SubTick, client: c, up: [][]upAction{u, u}, timers: 0, bound: 0, planner: "plain"})
 			}
 		}
+		// a reader that stalls while a data frame is half-way and the heartbeat comes due
+		for _, u := range [][]upAction{{"event"}, {"event", "event"}, {"event", "complete"}} {
+			b := 1
+			if len(u) == 2 && u[1] == "event" {
+				b = 0 // two stuck frames: default schedule and forced switches only (thorough: bound 2)
+			}
+			out = append(out, c18Scenario{world: "W0+subscription-roots", sub: c18SubTick, up: [][]upAction{u, u}, timers: 1, bound: b, planner: "plain", slow: true})
+		}
+		out = append(out, c18Scenario{world: "W0+subscription-roots", sub: c18SubCross, up: [][]upAction{{"event"}, {"event"}}, timers: 1, bound: 1, planner: "plain", slow: true})
 		// a heartbeat firing *and* one preemption (two deviations) while an event is in flight
 		for _, c := range [][]cliAction{{"stop-unknown"}, {"terminate"}} {
 			out = append(out, c18Scenario{world: "W0+subscription-roots", sub: c18SubTick, client: c, up: [][]upAction{{"event"}, {"event"}}, timers: 1, bound: 2, planner: "plain"})
@@ -270,6 +312,10 @@ func c18Scenarios(tier string) []c18Scenario {
 		for _, b := range []upAction{"event", "complete", "error", "disconnect"} {
 			up2 = append(up2, []upAction{a, b})
 		}
+	}
+	for _, u := range up2 {
+		out = append(out, c18Scenario{world: "W0+subscription-roots", sub: c18SubTick, up: [][]upAction{u, u}, timers: 2, bound: 2, planner: "plain", slow: true})
+		out = append(out, c18Scenario{world: "W0+subscription-roots", sub: c18SubCross, up: [][]upAction{u, u}, timers: 1, bound: 1, planner: "plain", slow: true})
 	}
 	for _, c := range append(cl1, cl2...) {
 		for _, u := range up2 {
@@ -289,7 +335,7 @@ func init() {
 	Specs["C18"] = &Spec{
 		ID: "C18",
 		Rule: "scenario = (client script over {stop, stop again, stop unknown id, terminate, abrupt close, malformed JSON, unknown type, start with invalid query, truncated frame, second start} of length <=2 after one established subscription; " +
-			"upstream script per subscription over {event, complete, error, disconnect, error payload} of length <=1 (thorough <=2); heartbeat ticker may fire <=1 (2) times as an environment move); the real subscriptionHandler, " +
+			"upstream script per subscription over {event, complete, error, disconnect, error payload} of length <=1 (thorough <=2); heartbeat ticker may fire <=1 (2) times as an environment move; plus a slow reader: the client's receive buffer holds 16 bytes (writes deliver what fits and block, a Write under way keeps other writers out, SetWriteDeadline is a virtual-time timer that fails blocked writes), the client reads nothing from 0 to 6.5 s while events arrive and the 4 s heartbeat comes due, reads on and terminates at 10 s); the real subscriptionHandler, " +
 			"subscriptionEntry.Listen/Close and MultiOpQueryer.Subscribe reader/closer goroutines (rewritten sources) run over scheduler-aware pipes with a hijacked websocket upgrade and a gobwas upstream; every schedule with <=1 (2) preemption " +
 			"inside the window that opens once the first subscription is established is executed (state-cached); invariants: no fatal/panic, no deadlock, handler returns, every goroutine started for the connection terminates, " +
 			"every established upstream connection is closed, and the byte stream the client received parses into complete websocket frames carrying complete graphql-ws messages; non-trivial = >1 execution",
